@@ -453,6 +453,63 @@ def check_uninit(ck, prog):
     return n
 
 
+def check_timeout(ck, prog):
+    """A threaded coder that gave up waiting because lzma_mt.timeout expired must say so (LZMA_TIMED_OUT): lzma_code()
+    turns that into LZMA_OK *without* counting the call as "no progress".  Returning LZMA_OK directly makes two
+    consecutive timeouts look like a stalled caller and lzma_code() answers LZMA_BUF_ERROR although the workers are busy."""
+    ck.rule("C11-TIMEOUT", "a timed-out wait of the threaded coders is reported as LZMA_TIMED_OUT to lzma_code()")
+    rets = common.lzma_ret(prog)
+    n = 0
+    # encoder: `if (wait_for_work(...)) return LZMA_TIMED_OUT;`
+    f = prog.fn("stream_encode_mt", "stream_encoder_mt.c")
+    ck.saw_function(f)
+    for b in f.blocks.values():
+        t = b.term
+        if not t or "cond" not in t or len(b.succs) != 2:
+            continue
+        if not any(c.get("fn") == "wait_for_work" for c in ex.calls(t["cond"])):
+            continue
+        n += 1
+        x, val, seen = b.succs[0], None, set()
+        while x is not None and x not in seen:
+            seen.add(x)
+            blk = f.blocks[x]
+            r = [ex.deref(e) for e in blk.elems if e is not None and ex.deref(e).get("k") == "ret"]
+            if r:
+                val = ex.const_val(r[0].get("e")) if r[0].get("e") is not None else None
+                break
+            nx = [y for y in blk.succs if y is not None]
+            x = nx[0] if len(nx) == 1 else None
+        ok = val == rets["LZMA_RET_INTERNAL1"]
+        ck.ob("C11-TIMEOUT", "stream_encode_mt:wait_for_work", ok, common.where(f, t["cond"]),
+              "stream_encode_mt: a timed-out wait_for_work() returns LZMA_TIMED_OUT" if ok else
+              "stream_encode_mt(): when wait_for_work() reports a timeout the function returns %s instead of LZMA_TIMED_OUT: "
+              "lzma_code() counts the call as `no progress` and the second timeout in a row becomes LZMA_BUF_ERROR although "
+              "the worker threads are still encoding" % ([k for k, v in rets.items() if v == val] or [val])[0],
+              key="TIMEOUT:stream_encode_mt")
+    # decoder: the non-zero edge of mythread_cond_timedwait() stores LZMA_TIMED_OUT into the value that is returned
+    g = prog.fn("read_output_and_wait", "stream_decoder_mt.c")
+    ck.saw_function(g)
+    for b in g.blocks.values():
+        t = b.term
+        if not t or "cond" not in t or len(b.succs) != 2:
+            continue
+        if not any(c.get("fn") == "mythread_cond_timedwait" for c in ex.calls(t["cond"])):
+            continue
+        n += 1
+        tb = g.blocks.get(b.succs[0])
+        stored = [ex.const_val(r) for e in (tb.elems if tb else []) if e is not None for (l, r, op, node) in ex.writes(e)
+                  if r is not None and ex.show(ex.strip(l)) == "ret"]
+        ok = rets["LZMA_RET_INTERNAL1"] in stored
+        ck.ob("C11-TIMEOUT", "read_output_and_wait:timedwait", ok, common.where(g, t["cond"]),
+              "read_output_and_wait: a timed-out wait sets ret = LZMA_TIMED_OUT" if ok else
+              "read_output_and_wait(): the timed-out edge of mythread_cond_timedwait() does not store LZMA_TIMED_OUT into ret",
+              key="TIMEOUT:read_output_and_wait")
+    if n < 2:
+        raise AnalysisBroken("C11-TIMEOUT: the two timed waits of the threaded coders were not found (%d)" % n)
+    # and lzma_code() maps LZMA_TIMED_OUT to LZMA_OK without touching allow_buf_error is part of C11-FSM
+
+
 def run(ck):
     ck.explanation = (
         "The transition relation of lzma_code() is extracted by exhaustive finite-domain abstract evaluation "
@@ -467,6 +524,7 @@ def run(ck):
     check_out_idx(ck, prog)
     check_restore(ck, prog)
     check_uninit(ck, prog)
+    check_timeout(ck, prog)
     # LZMA_BUF_ERROR is produced by lzma_code() only (second no-progress call), never by a coder (rule shared with C04)
     from . import C04
     C04.check_ret(ck, prog)
